@@ -20,7 +20,7 @@ NSLOT = 4
 
 
 def variants(prop, tier):
-    return ['plain'] + (['asan'] if tier == 'thorough' else [])
+    return ['plain', 'asan']
 
 
 def gen_spec(prop, rng, tier):
@@ -101,17 +101,19 @@ def gen_spec(prop, rng, tier):
                 fl = ['set%da.fa' % ks, 'set%db.fa' % ks]
             else:
                 fl = ['set%d.fa' % ks]
+            mixed = 0
             if written and rng.random() < 0.25:
                 # several files into one object, one of them an alignment kalign wrote earlier (gapped) and
                 # one plain: the object passes through merge_msa with parts of different status
-                path, ks2, fmt = rng.choice(written)
+                path, ks2, fmt, _ = rng.choice(written)
                 fl = [path] + fl if rng.random() < 0.5 else fl + [path]
+                mixed = 1       # holds more than the records of one set: never compared with anything
             ops.append({'k': 'R', 's': s, 'files': fl})
-            slots[s] = {'set': ks, 'state': 'read', 'mixed': 1}
+            slots[s] = {'set': ks, 'state': 'read', 'mixed': mixed}
         elif k == 'Rw':
-            s = rng.choice(empty); path, ks, fmt = rng.choice(written)
+            s = rng.choice(empty); path, ks, fmt, mixed = rng.choice(written)
             ops.append({'k': 'R', 's': s, 'files': [path]})
-            slots[s] = {'set': ks, 'state': 'read'}
+            slots[s] = {'set': ks, 'state': 'read', 'mixed': mixed}
         elif k == 'X':
             s = rng.choice(readst)
             wl = sets[slots[s]['set']]
@@ -124,7 +126,7 @@ def gen_spec(prop, rng, tier):
             nout += 1
             ops.append({'k': 'W', 's': s, 'path': path, 'fmt': fmt})
             if path:
-                written.append((path, slots[s]['set'], fmt))
+                written.append((path, slots[s]['set'], fmt, slots[s].get('mixed', 0)))
         elif k == 'C':
             a, b = rng.choice(pairs)
             ops.append({'k': 'C', 'a': a, 'b': b})
@@ -136,9 +138,12 @@ def gen_spec(prop, rng, tier):
             # reformat_settings_msa: rename to SEQ<n> and/or drop the gaps of an object that has not been aligned here
             s = rng.choice(readst + runst)
             ops.append({'k': 'M', 's': s, 'rename': rng.choice([0, 1, 1]), 'unalign': rng.choice([0, 1]) if s in readst else 0})
+            if ops[-1]['rename']:
+                slots[s]['mixed'] = 1      # renamed: no longer the same records as another object of this set for compare
         elif k == 'V':
             s = rng.choice(readst + runst)
             ops.append({'k': 'V', 's': s, 'strict': rng.choice([0, 0, 1])})
+            slots[s]['mixed'] = 1          # may have renamed records that share a name
         elif k == 'A':
             ks = rng.randrange(nsets); wl = sets[ks]
             ops.append({'k': 'A', 'set': ks, 'n': gen.thread_count(rng), 't': rand_type(wl), 'gp': rand_gp()})
@@ -147,11 +152,14 @@ def gen_spec(prop, rng, tier):
             fmt = rng.choice(['fasta', 'msf', 'clu'])
             path = 'c%d.%s' % (nout, plans.EXT[fmt]); nout += 1
             ops.append({'k': 'CLI', 'set': ks, 'n': rng.choice([1, 2, 4, 8]), 't': rand_type(wl) if rng.random() < 0.5 else 5, 'gp': rand_gp(), 'path': path, 'fmt': fmt})
-            written.append((path, ks, fmt))
+            written.append((path, ks, fmt, 0))
     for s in range(NSLOT):
         if slots[s] is not None:
             ops.append({'k': 'F', 's': s})
-    return {'kind': 'C16', 'prop': 'C16', 'sets': sets, 'files': files, 'ops': ops, 'world': gen.gen_world(rng), 'junk2': rng.getrandbits(62)}
+    spec = {'kind': 'C16', 'prop': 'C16', 'sets': sets, 'files': files, 'ops': ops, 'world': gen.gen_world(rng), 'junk2': rng.getrandbits(62)}
+    if rng.random() < 0.15:
+        spec['_variant'] = 'asan'      # a share of the histories runs on the ASan+UBSan build (history and slices alike)
+    return spec
 
 
 def emit(p, spec, ops):
@@ -274,7 +282,7 @@ def op_result(res, idxs):
             r.append(('missing',))
             continue
         fields = tuple(sorted((a, b) for a, b in o.f.items() if a not in ('score',)))
-        outs = tuple(sorted(o.out.items()))
+        outs = tuple(sorted((k, plans._mask_log_time(v) if k in ('stdout', 'stderr') and isinstance(v, bytes) else v) for k, v in o.out.items()))
         r.append((o.code, fields, outs))
     return r
 
